@@ -12,12 +12,20 @@
 (*   b    the fixture's unit is U = 10^b                                              *)
 (*   m, x, sg, ax, pos   the probe coordinate sg * m * 10^x on axis ax (0 = x, 1 = y);*)
 (*        m = 0: no probe vertex; pos = 1: the probe path is the second of two paths  *)
+(*   sh   shape of the probe path (the bounding box of shapes 1-3 has no area):       *)
+(*        0 square + spike, 1 axis-parallel 2-point segment with the probe coordinate *)
+(*        on the parallel axis, 2 flat 3-point path, 3 a single point                 *)
 (* Fixture (documented here, built by the harness from these numbers only):           *)
 (*   S0 = (0,0) (10U,0) (10U,10U) (0,10U); the probe path is S0 with one extra vertex *)
 (*   forming an outward spike: (sg*M, 5U) or (5U, sg*M) with M = m * 10^x, inserted   *)
 (*   on the side it points away from; S1 = S0 + (20U,20U); rectangle (-2U,-2U,12U,5U); *)
 (*   offset delta U; Minkowski pattern S0; boolean partner operand S0 + (5U,5U).      *)
-(* Every valid call on this fixture has a non-empty result (between 1 and 99 paths)   *)
+(*   sh = 1: (0,5U) (P,5U)   sh = 2: (0,5U) (10U,5U) (P,5U)   sh = 3: (P,5U)   with   *)
+(*   P = sg*M (20U when m = 0), x and y swapped for ax = 1; pos = 2 (sh = 1 only):    *)
+(*   preceded by a second collinear segment (20U,5U) (30U,5U).  A valid call on a     *)
+(*   degenerate shape may legitimately return nothing, so its size is not bounded     *)
+(*   below; an out-of-range coordinate in it must be reported like any other.         *)
+(* Every valid call on the sh = 0 fixture has a non-empty result (between 1 and 99 paths)   *)
 (* provided the unit does not vanish under the scaling (b + s >= 0), which AbsOK      *)
 (* checks.  TLC never forms 10^x: magnitudes are compared through decimal exponents.  *)
 EXTENDS C11ErrTable
@@ -38,7 +46,7 @@ MagClass(r) == IF Beyond(r) THEN "beyond" ELSE IF InRange(r) THEN "in" ELSE "unj
 (* the fixture is meaningful: the unit survives the scaling, fields are in their ranges *)
 AbsOK(r) == /\ r.ep \in AllEPs
             /\ r.b >= 0 /\ r.b + ScaleExp(r) >= 0
-            /\ r.m \in 0..9 /\ r.sg \in {1, -1} /\ r.ax \in {0, 1} /\ r.pos \in {0, 1} /\ r.zs \in 0..3 /\ r.cnt \in 0..64
+            /\ r.m \in 0..9 /\ r.sg \in {1, -1} /\ r.ax \in {0, 1} /\ r.pos \in 0..2 /\ r.sh \in 0..3 /\ (r.pos = 2 => r.sh = 1) /\ r.zs \in 0..3 /\ r.cnt \in 0..64
             /\ MagClass(r) # "unjudged"
 
 Abs(r, exc) == Call(r.ep, r.p, MagClass(r), r.zs # 0, r.cnt % 2 = 1, r.ct, r.fr, exc)
@@ -46,6 +54,7 @@ Abs(r, exc) == Call(r.ep, r.p, MagClass(r), r.zs # 0, r.cnt % 2 = 1, r.ct, r.fr,
 (* size of a normal result on the fixture: [min, max] *)
 NMin(r) == IF r.ep \in MkEPs THEN r.cnt \div 2
            ELSE IF r.ep \in CIntEPs THEN (IF r.ct \in 1..4 /\ r.fr \in 0..2 THEN 1 ELSE 0)   \* both operands are positively oriented: Negative fills nothing
+           ELSE IF r.sh # 0 THEN 0
            ELSE 1
 NMax(r) == IF r.ep \in MkEPs THEN r.cnt \div 2 ELSE IF r.ep \in CIntEPs /\ r.ct = 0 THEN 0 ELSE 99   \* NoClip yields empty solutions
 =============================================================================
